@@ -1,5 +1,6 @@
 use super::minidump_writer::CrashingThreadContext;
 use super::*;
+use crate::minidump_cpu::RawContextCPU;
 use minidump_common::errors::ExceptionCodeLinux;
 
 pub fn write(
@@ -28,9 +29,18 @@ pub fn write(
     let thread_context = match config.crashing_thread_context {
         CrashingThreadContext::CrashContextPlusAddress((ctx, _))
         | CrashingThreadContext::CrashContext(ctx) => ctx,
-        CrashingThreadContext::None => MDLocationDescriptor {
-            data_size: 0,
-            rva: 0,
+        CrashingThreadContext::None => match &config.crash_context {
+            // The blamed thread is not in the thread list (it could not be attached to), so no
+            // thread entry carries the supplied context: store it for the exception record.
+            Some(context) => {
+                let mut cpu: RawContextCPU = Default::default();
+                context.fill_cpu_context(&mut cpu);
+                MemoryWriter::alloc_with_val(buffer, cpu)?.location()
+            }
+            None => MDLocationDescriptor {
+                data_size: 0,
+                rva: 0,
+            },
         },
     };
 
